@@ -104,10 +104,10 @@ def main():
     led = "known/C14.ledger"
     c, ex = rcs(led)
     groups = [("lazy-DFA-forward", lambda r: r.startswith("lazy.DFA."),
-               "lazy.DFA forward entry points driven directly differ from the reference: the NFA fallback of an ANCHORED search is unanchored "
-               "(SearchAtAnchored with a one-state cache: `a` on \"\\x00\\x00a\" returns 3); at==len(h) uses matchesEmpty without look-behind context "
-               "(`^$` at 1 on \"\\x00\"); SearchFirstAt (earliest-match mode, compared with the EARLIEST end) returns the leftmost-first end "
-               "when it falls back to the NFA under a small cache; look-around / multi-byte dot patterns"),
+               "lazy.DFA forward entry points driven directly differ from the reference: SearchFirstAt (earliest-match mode, compared with "
+               "the EARLIEST end of any match) returns the leftmost-first end when it falls back to the NFA under a small cache; "
+               "look-around patterns (word boundaries are resolved on unordered state sets, start states carry no precomputed \\b flags, "
+               "`$` followed by \\b, multiline `$^`: `(?m)^$` on \"\\x00\\n\\n\" returns 3); dot / negated classes on invalid UTF-8"),
               ("lazy-DFA-reverse", lambda r: r.startswith("lazy.DFA(reverse)"),
                "reverse lazy.DFA SearchReverse/IsMatchReverse differ from the reference start (empty spans, look-around)"),
               ("PikeVM-captures", lambda r: r.startswith("PikeVM."),
@@ -119,6 +119,14 @@ def main():
         rl = sorted(r for r in c if pred(r))
         if rl:
             add(id="C14-" + gid, property="C14", ledger=led, rcs=rl, what=txt + " - %d recorded inputs in %s" % (sum(c[r] for r in rl), led))
+    # C14: lazy DFA call histories (dfa-cases)
+    led = "known/C14dfa.ledger"
+    c, ex = rcs(led)
+    if c:
+        add(id="C14-lazy-DFA-histories", property="C14", ledger=led, rcs=sorted(c),
+            what="lazy.DFA entry points on one cache after a history of calls differ from the bounded backtracker (look-around patterns: "
+                 "start states without precomputed \\b flags, word boundaries resolved on sorted sets, `$` followed by \\b) - %d recorded "
+                 "inputs in %s, e.g. %s" % (sum(c.values()), led, next(iter(ex.values()), "")))
     # C15
     led = "known/C15.ledger"
     c, ex = rcs(led)
